@@ -442,6 +442,10 @@ def _data_parse_csv(args, unused_options):
     # Parse the CSV
     data = list(csv.DictReader(lines, skipinitialspace=True))
 
+    # Ignore the cells of a row that have no column header (DictReader collects them under the key None)
+    for row in data:
+        row.pop(None, None)
+
     # Validate the data (as CSV)
     validate_data(data, True)
     return data
